@@ -169,4 +169,156 @@ Section FinStep.
     - intros Hx. split; auto. intros ->. contradiction.
     - intros ([Hx|Hx] & Hn); [congruence|auto].
   Qed.
+
+  Lemma fs_rootnum' : s_rootnum (fst (s_fin s h)) = nnumber m.
+  Proof.
+    destruct fs_sim' as (_ & (_ & En & _)). rewrite <- En. rewrite fs_prune. reflexivity.
+  Qed.
+
+  Lemma fs_blocks_incl x : In x (map b_hash (s_blocks (fst (s_fin s h)))) -> In x (map b_hash (s_blocks s)).
+  Proof.
+    destruct fs_fin_spec as (fb & _ & ->). cbn [s_blocks]. apply filter_hashes_incl.
+  Qed.
+
+  (* the numbers of the specification after the finalisation are the old ones *)
+  Lemma fs_number' x : In x (map b_hash (s_blocks (fst (s_fin s h)))) -> x <> h ->
+    s_number (fst (s_fin s h)) x = s_number s x.
+  Proof.
+    intros Hx Hne. destruct fs_fin_spec as (fb & _ & Es). rewrite Es in *. cbn [s_blocks] in Hx.
+    pose proof (swf_keys _ (sim_swf _ _ (i_sim _ _ _ I))) as ND. fold s in ND.
+    apply in_map_iff in Hx as (b & Eb & Hb).
+    unfold s_number, s_find. cbn [s_root s_blocks].
+    destruct (N.eqb_spec x h) as [|_]; [contradiction|].
+    destruct (N.eqb_spec x (s_root s)) as [Er|_].
+    { exfalso. apply (swf_root_not_block s (sim_swf _ _ (i_sim _ _ _ I))).
+      rewrite <- Er, <- Eb. apply filter_In in Hb as (Hb & _). apply in_map; auto. }
+    rewrite (find_blk_filter _ _ x b ND Hb Eb).
+    apply filter_In in Hb as (Hb & _). rewrite <- Eb, (find_blk_in _ b ND Hb). reflexivity.
+  Qed.
+
+  Theorem fin_step :
+    exists st', set_finalised st h round setid = (st', Ok tt) /\ inv g st' (f_fin f h).
+  Proof.
+    destruct fs_nodup_sub as (NDs & Hrs). destruct (i_head _ _ _ I) as (i0 & Hh0 & Hf0).
+    fold s in Hh0, Hf0. rewrite fs_root in Hh0, Hf0.
+    assert (Elast : bs_last st = nhash (root t)) by (rewrite (i_last _ _ _ I); apply fs_root).
+    assert (Hlu : lookup (nhash (root t)) (bs_unfin st) = None).
+    { destruct (lookup (nhash (root t)) (bs_unfin st)) eqn:X; auto. exfalso.
+      assert (Hi : In (nhash (root t)) (map b_hash (s_blocks s))) by (apply (i_unfin _ _ _ I); congruence).
+      apply fs_blocks in Hi as (_ & Hi). congruence. }
+    assert (Hhu : lookup h (bs_unfin st) <> None).
+    { apply (i_unfin _ _ _ I). apply fs_sub_blocks. apply fs_h_sub. }
+    destruct (set_finalised_ok st h round setid sub {| root := m; leaves := get_leaves m |} pruned i0)
+      as (u' & t' & h' & n' & Eres & Hu' & Hh' & Hn' & Ht').
+    - unfold has_header. destruct (lookup h (bs_unfin st)); [reflexivity|congruence].
+    - rewrite Elast. apply (fd_ne _ _ _ _ _ D).
+    - rewrite Elast, <- (fd_hash _ _ _ _ _ D). apply (abs_root_path t q m W Hp).
+    - exact NDs.
+    - apply fs_h_sub.
+    - intros x Hx. destruct (fs_sub_blocks x Hx) as (Hb & Hg). split.
+      + rewrite (i_gen _ _ _ I). exact Hg.
+      + apply (i_unfin _ _ _ I). exact Hb.
+    - exact Hsid.
+    - apply fs_prune.
+    - apply prune_list_nodup. exact U.
+    - rewrite Elast. exact Hlu.
+    - rewrite Elast. exact Hrs.
+    - rewrite Elast. exact Hh0.
+    - exists (mkState {| root := m; leaves := get_leaves m |} u' t' h' n'
+                      (((round, setid), h) :: bs_finkeys st) (round, setid) (bs_genesis st) h round setid).
+      split; [exact Eres|].
+      (* the specification side *)
+      assert (Hadm : f_admissible f h = true).
+      { unfold f_admissible. apply s_known_iff. right. apply fs_sub_blocks. apply fs_h_sub. }
+      unfold f_fin. rewrite Hadm. fold s.
+      destruct fs_links as (EL1 & EL2). rewrite EL2.
+      destruct (path_links t q m W Hp) as (L1 & L2 & L3 & L4). fold sub in L1, L2, L3, L4.
+      set (L := links_of (abs t) sub) in *.
+      pose proof fs_sim' as S'. rewrite fs_prune in S'. cbn [fst] in S'.
+      destruct fs_fin_spec as (fb & Efb & Es).
+      assert (Hroot' : s_root (fst (s_fin s h)) = h) by (rewrite Es; reflexivity).
+      assert (Hsub_u : forall x, In x sub -> exists i, lookup x (bs_unfin st) = Some i).
+      { intros x Hx. destruct (fs_sub_blocks x Hx) as (Hb & _). apply (i_unfin _ _ _ I) in Hb.
+        destruct (lookup x (bs_unfin st)); [eauto|congruence]. }
+      constructor; proj_simpl.
+      + exact S'.
+      + symmetry. exact Hroot'.
+      + apply (i_gen _ _ _ I).
+      + intro Hg. apply (i_gen_fin _ _ _ I). apply fs_blocks_incl. exact Hg.
+      + (* unfinalised blocks = the blocks strictly below h *)
+        intros x. rewrite Hu', fs_blocks'. split.
+        * destruct (inb x pruned) eqn:Xp; [cbn [orb]; congruence|].
+          destruct (inb x sub) eqn:Xs; [cbn [orb]; congruence|]. cbn [orb]. intros Hx.
+          apply inb_false in Xp, Xs. apply (i_unfin _ _ _ I) in Hx. apply fs_blocks in Hx as (Hx & Hr).
+          split.
+          -- apply (hash_rest t m q W Hp x Hx Hr Xs Xp).
+          -- intros ->. apply Xs. apply fs_h_sub.
+        * intros (Hx & Hne).
+          assert (Xs : inb x sub = false).
+          { apply inb_false. intro Hi. destruct (hash_on_chain t m q W Hp x Hi) as (_ & _ & _ & K).
+            apply Hne. rewrite (K Hx). apply (fd_hash _ _ _ _ _ D). }
+          assert (Xp : inb x pruned = false).
+          { apply inb_false. intro Hi. destruct (hash_pruned t m q W Hp x Hi) as (_ & _ & K & _). contradiction. }
+          rewrite Xp, Xs. cbn [orb]. apply (i_unfin _ _ _ I). apply fs_blocks_incl. apply fs_blocks'. auto.
+      + (* their data *)
+        intros x i Hx. rewrite Hu' in Hx.
+        destruct (inb x pruned || inb x sub) eqn:X; [discriminate|].
+        destruct (i_unfin_info _ _ _ I x i Hx) as (A & B). split; auto.
+        assert (Hb' : In x (map b_hash (s_blocks (fst (s_fin s h))))).
+        { assert (Hxu : lookup x u' <> None) by (rewrite Hu', X; congruence).
+          (* reuse the previous field *)
+          apply orb_false_iff in X as (Xp & Xs). apply inb_false in Xp, Xs.
+          assert (Hx0 : In x (map b_hash (s_blocks s))) by (apply (i_unfin _ _ _ I); congruence).
+          apply fs_blocks in Hx0 as (Hx0 & Hr). apply fs_blocks'. split.
+          - apply (hash_rest t m q W Hp x Hx0 Hr Xs Xp).
+          - intros ->. apply Xs. apply fs_h_sub. }
+        rewrite fs_number'; auto. apply fs_blocks' in Hb' as (_ & Hne). exact Hne.
+      + (* database headers = the finalised chain *)
+        intros x. rewrite Hh', map_app, in_app_iff, L1. destruct (inb x sub) eqn:Xs.
+        * apply inb_in in Xs. destruct (Hsub_u x Xs) as (i & ->). split; auto. congruence.
+        * apply inb_false in Xs. rewrite (i_hdr _ _ _ I). split; auto. intros [A|A]; auto. contradiction.
+      + (* the new head is in the database with its data *)
+        rewrite Hroot'. destruct (Hsub_u h fs_h_sub) as (ih & Hih). exists ih. split.
+        * rewrite Hh'. assert (Xs : inb h sub = true) by (apply inb_in; apply fs_h_sub). rewrite Xs. exact Hih.
+        * apply (i_unfin_info _ _ _ I h ih Hih).
+      + (* the number index *)
+        intros n x Hin. rewrite Hn' by (rewrite EL1; exact L2). rewrite EL1. fold L.
+        apply in_app_or in Hin as [Hin|Hin].
+        * assert (Hnone : lookup n L = None).
+          { apply lookup_none. intro Hi. apply in_map_iff in Hi as ((n1 & x1) & En1 & Hi). simpl in En1. subst n1.
+            pose proof (L3 n x1 Hi) as (Hlt & _). pose proof (i_chain_le _ _ _ I n x Hin) as Hle.
+            fold s in Hle. rewrite fs_rootnum in Hle. lia. }
+          rewrite Hnone. apply (i_num _ _ _ I n x Hin).
+        * rewrite (lookup_nodup n x L L2 Hin). reflexivity.
+      + (* numbers of the chain are pairwise different *)
+        rewrite map_app. apply NoDup_app_intro; [apply (i_chain_nodup _ _ _ I)|exact L2|].
+        intros n H1 H2. apply in_map_iff in H1 as ((n1 & x1) & E1 & H1). apply in_map_iff in H2 as ((n2 & x2) & E2 & H2).
+        simpl in E1, E2. subst n1 n2. pose proof (i_chain_le _ _ _ I n x1 H1) as Hle. fold s in Hle.
+        rewrite fs_rootnum in Hle. pose proof (L3 n x2 H2). lia.
+      + intros n x Hin. rewrite fs_rootnum'. apply in_app_or in Hin as [Hin|Hin].
+        * pose proof (i_chain_le _ _ _ I n x Hin) as Hle. fold s in Hle. rewrite fs_rootnum in Hle.
+          pose proof (node_number_ge _ _ (proj1 (proj2 W)) (is_path_end _ _ _ Hp)). lia.
+        * apply (L3 n x Hin).
+      + rewrite fs_rootnum', Hroot'. apply in_or_app. right.
+        rewrite <- (fd_hash _ _ _ _ _ D). apply L4. apply (fd_q _ _ _ _ _ D).
+      + (* tries in memory belong to held blocks *)
+        intros r Hr. destruct (Ht' r Hr) as (Hr0 & Hsub & Hpr & Hi0).
+        destruct (i_tries _ _ _ I r Hr0) as (x & i & Hk & Hfa & Hri). fold s in Hk.
+        apply s_known_iff in Hk as [Hk|Hk].
+        * (* the previous head: its trie was dropped *)
+          exfalso. apply Hi0. rewrite fs_root in Hk. subst x. congruence.
+        * assert (Hxu : exists j, lookup x (bs_unfin st) = Some j).
+          { apply (i_unfin _ _ _ I) in Hk. destruct (lookup x (bs_unfin st)); [eauto|congruence]. }
+          destruct Hxu as (j & Hj). destruct (i_unfin_info _ _ _ I x j Hj) as (Hfa' & _).
+          assert (j = i) by congruence. subst j.
+          exists x, i. split; [|split; auto].
+          apply s_known_iff. destruct (N.eq_dec x h) as [->|Hxh]; [left; auto|right].
+          apply fs_blocks'. split; auto.
+          destruct (in_dec N.eq_dec x sub) as [Hs|Hs].
+          { exfalso. apply (Hsub x i Hs Hxh Hj). exact Hri. }
+          destruct (in_dec N.eq_dec x pruned) as [Hp'|Hp'].
+          { exfalso. apply (Hpr x i Hp' Hs Hj). exact Hri. }
+          apply fs_blocks in Hk as (Hk & Hr'). apply (hash_rest t m q W Hp x Hk Hr' Hs Hp').
+      + cbn [lookup2]. rewrite pair_eqb_refl, Hroot'. reflexivity.
+  Qed.
 End FinStep.
